@@ -4,7 +4,7 @@ from __future__ import annotations
 import warnings
 from typing import Any, Dict, List, Optional, Tuple
 
-from . import odxgen, refodx
+from . import common, odxgen, refodx
 
 J = Dict[str, Any]
 
@@ -43,18 +43,45 @@ def family(e: BaseException) -> str:
     return "foreign"
 
 
+class NonTermination(Exception):
+    """Recorded (never raised into the code under test): the call was still running after the
+    wall-clock trigger AND after LINE_BUDGET executed source lines."""
+
+
+CALL_DEADLINE = 10.0        # seconds; a trigger only, never a verdict by itself
+LINE_BUDGET = 30_000_000    # executed source lines (sys.monitoring LINE), the logical budget
+NONTERM_SEEN = [0]
+
+
 def call(fn: Any, *a: Any, **kw: Any) -> Outcome:
+    """One call of the code under test.  Calls normally take milliseconds; one that runs into
+    the wall-clock trigger is repeated under a line counter and recorded as NonTermination only
+    if it exceeds the logical budget as well (otherwise the run is inconclusive)."""
     o = Outcome()
+    # after three confirmed non-terminations the verdict is settled; do not spend 10 s on each
+    # of the (typically many) further inputs that hit the same loop
+    limit = CALL_DEADLINE if NONTERM_SEEN[0] < 3 else 0.5
     with warnings.catch_warnings(record=True) as log:
         warnings.simplefilter("always")
-        try:
-            o.value = fn(*a, **kw)
-        except (KeyboardInterrupt, SystemExit, MemoryError):
-            raise
-        except BaseException as e:  # noqa - the exception type is the observation
-            o.exc = e
-            o.exc_type = type(e).__name__
-            o.exc_family = family(e)
+        with common.deadline(limit) as dl:
+            try:
+                o.value = fn(*a, **kw)
+            except (KeyboardInterrupt, SystemExit, MemoryError):
+                raise
+            except BaseException as e:  # noqa - the exception type is the observation
+                o.exc = e
+                o.exc_type = type(e).__name__
+                o.exc_family = family(e)
+        if dl.fired:
+            if NONTERM_SEEN[0] >= 3 or common.runs_beyond(lambda: fn(*a, **kw), LINE_BUDGET):
+                NONTERM_SEEN[0] += 1
+                o.value = None
+                o.exc = NonTermination(f"still running after {limit} s and {LINE_BUDGET} lines")
+                o.exc_type = "NonTermination"
+                o.exc_family = "foreign"
+            else:
+                raise common.Overloaded("a call hit the wall-clock trigger but finished within "
+                                        "the line budget (overloaded machine?)")
     for w in log:
         names = [c.__name__ for c in type(w.message).__mro__]
         if "OdxWarning" in names and "verlapping" in str(w.message):
